@@ -36,65 +36,65 @@ type snippet struct {
 
 var features = map[string]snippet{
 	// additional top-level types
-	"top_enum":       {"top", "enum Color { RED, GREEN(2); private int v; Color() { } Color(int v) { this.v = v; } Color next() { return RED; } }"},
-	"top_record":     {"top", "record Point(int x, int y) implements Comparable<Point> { int sum() { return x + y; } public int compareTo(Point o) { return 0; } static Point origin() { return new Point(0, 0); } }"},
-	"top_annotation": {"top", "@interface Marker { String value() default \"x\"; int[] nums() default {1, 2}; Class<?> type() default Object.class; }"},
-	"top_interface":  {"top", "interface Shape extends Comparable<Shape> { double area(); default String label() { return \"s\"; } static Shape unit() { return null; } int SIDES = 4; }"},
-	"top_abstract":   {"top", "abstract class Base<T extends Comparable<T>> implements java.io.Serializable { abstract T get(); protected Base() { super(); } }"},
+	"top_enum":            {"top", "enum Color { RED, GREEN(2); private int v; Color() { } Color(int v) { this.v = v; } Color next() { return RED; } }"},
+	"top_record":          {"top", "record Point(int x, int y) implements Comparable<Point> { int sum() { return x + y; } public int compareTo(Point o) { return 0; } static Point origin() { return new Point(0, 0); } }"},
+	"top_annotation":      {"top", "@interface Marker { String value() default \"x\"; int[] nums() default {1, 2}; Class<?> type() default Object.class; }"},
+	"top_interface":       {"top", "interface Shape extends Comparable<Shape> { double area(); default String label() { return \"s\"; } static Shape unit() { return null; } int SIDES = 4; }"},
+	"top_abstract":        {"top", "abstract class Base<T extends Comparable<T>> implements java.io.Serializable { abstract T get(); protected Base() { super(); } }"},
 	"top_generic_bounded": {"top", "class Box<K, V extends java.util.List<? super K>> { V v; <R extends K> R cast(Object o) { return null; } }"},
 	// member types and members of Main
-	"nested_static":    {"member", "static class Nested { int n; static class Deeper { void d() { } } }"},
-	"inner_class":      {"member", "class Inner { int i = count; void up() { Main.this.count++; } }"},
-	"nested_enum":      {"member", "enum Mode { ON { @Override int v() { return 1; } }, OFF { @Override int v() { return 0; } }; abstract int v(); }"},
-	"nested_interface": {"member", "interface Listener { void on(String e); }"},
-	"nested_record":    {"member", "record Pair<A, B>(A a, B b) { }"},
+	"nested_static":     {"member", "static class Nested { int n; static class Deeper { void d() { } } }"},
+	"inner_class":       {"member", "class Inner { int i = count; void up() { Main.this.count++; } }"},
+	"nested_enum":       {"member", "enum Mode { ON { @Override int v() { return 1; } }, OFF { @Override int v() { return 0; } }; abstract int v(); }"},
+	"nested_interface":  {"member", "interface Listener { void on(String e); }"},
+	"nested_record":     {"member", "record Pair<A, B>(A a, B b) { }"},
 	"nested_annotation": {"member", "@interface Tag { String[] value(); }"},
-	"array_field":      {"member", "int[][] grid = new int[2][3]; String[] names = {\"a\", \"b\"}; long[] zs[];"},
-	"generic_field":    {"member", "java.util.Map<String, java.util.List<Integer>> index = new java.util.HashMap<>();"},
-	"static_init":      {"member", "static int boot; static { boot = 1; }"},
-	"instance_init":    {"member", "{ count = 2; }"},
-	"ctor_this_super":  {"member", "Main() { this(1); } Main(int a) { super(); count = a; }"},
-	"varargs":          {"member", "void va(String fmt, Object... xs) { }"},
-	"generic_method":   {"member", "<T extends Number & Comparable<T>> T gm(T t) throws Exception { return t; }"},
-	"native_sync":      {"member", "native void nat(); synchronized strictfp void sync() { } transient volatile int tv;"},
-	"ann_marker":       {"member", "@Deprecated void am() { }"},
-	"ann_single":       {"member", "@SuppressWarnings(\"unchecked\") void as() { }"},
-	"ann_array":        {"member", "@SuppressWarnings({\"a\", \"b\"}) void aa() { }"},
-	"ann_pairs":        {"member", "@javax.annotation.Resource(name = \"x\", shareable = false) Object res;"},
-	"ann_nested":       {"member", "@Outer(@Inner(1)) @Outer.Kind(value = @Inner(2)) void an() { }"},
-	"ann_const":        {"member", "@Timeout(Limits.MAX * 2) void ac() { }"},
-	"ann_param":        {"member", "void pa(@Deprecated final int a, @SuppressWarnings(\"x\") String... b) { }"},
-	"ann_typeuse":      {"member", "java.util.@NonNull List<@NonNull String> tu;"},
-	"ann_local":        {"stmt", "@SuppressWarnings(\"unused\") final int annotated = 1;"},
+	"array_field":       {"member", "int[][] grid = new int[2][3]; String[] names = {\"a\", \"b\"}; long[] zs[];"},
+	"generic_field":     {"member", "java.util.Map<String, java.util.List<Integer>> index = new java.util.HashMap<>();"},
+	"static_init":       {"member", "static int boot; static { boot = 1; }"},
+	"instance_init":     {"member", "{ count = 2; }"},
+	"ctor_this_super":   {"member", "Main() { this(1); } Main(int a) { super(); count = a; }"},
+	"varargs":           {"member", "void va(String fmt, Object... xs) { }"},
+	"generic_method":    {"member", "<T extends Number & Comparable<T>> T gm(T t) throws Exception { return t; }"},
+	"native_sync":       {"member", "native void nat(); synchronized strictfp void sync() { } transient volatile int tv;"},
+	"ann_marker":        {"member", "@Deprecated void am() { }"},
+	"ann_single":        {"member", "@SuppressWarnings(\"unchecked\") void as() { }"},
+	"ann_array":         {"member", "@SuppressWarnings({\"a\", \"b\"}) void aa() { }"},
+	"ann_pairs":         {"member", "@javax.annotation.Resource(name = \"x\", shareable = false) Object res;"},
+	"ann_nested":        {"member", "@Outer(@Inner(1)) @Outer.Kind(value = @Inner(2)) void an() { }"},
+	"ann_const":         {"member", "@Timeout(Limits.MAX * 2) void ac() { }"},
+	"ann_param":         {"member", "void pa(@Deprecated final int a, @SuppressWarnings(\"x\") String... b) { }"},
+	"ann_typeuse":       {"member", "java.util.@NonNull List<@NonNull String> tu;"},
+	"ann_local":         {"stmt", "@SuppressWarnings(\"unused\") final int annotated = 1;"},
 	"override_tostring": {"member", "@Override public String toString() { return super.toString(); }"},
 	// statements / expressions inside void body()
-	"lambda0":         {"stmt", "Runnable r0 = () -> { }; r0.run();"},
-	"lambda1":         {"stmt", "java.util.function.Function<String, String> f1 = s -> s.trim(); f1.apply(\"x\");"},
-	"lambdaN":         {"stmt", "java.util.function.BiFunction<Integer, Integer, Integer> add = (a, b) -> a + b;"},
-	"lambda_typed":    {"stmt", "java.util.function.BinaryOperator<Integer> mul = (Integer a, Integer b) -> { return a * b; };"},
-	"method_ref":      {"stmt", "java.util.function.Function<Object, String> g = Object::toString; Runnable rr = this::body;"},
-	"ctor_ref":        {"stmt", "java.util.function.Supplier<java.util.ArrayList<String>> mk = java.util.ArrayList::new; java.util.function.IntFunction<int[]> arr = int[]::new;"},
-	"array_creation":  {"stmt", "int[] a1 = new int[3]; int[][] a2 = new int[][]{{1}, {2, 3}}; a1[0] = a2[1][0];"},
-	"anonymous_class": {"stmt", "Object anon = new Object() { int k; @Override public String toString() { return \"x\" + k; } };"},
-	"ternary_cast":    {"stmt", "Object oc = count > 1 ? (Object) \"a\" : Integer.valueOf(2); long lc = (long) count;"},
-	"instanceof_pattern": {"stmt", "Object ip = \"s\"; if (ip instanceof String str && !str.isEmpty()) { str.length(); }"},
-	"switch_expr":     {"stmt", "int se = switch (count) { case 1, 2 -> 10; default -> { yield 20; } };"},
-	"switch_classic":  {"stmt", "switch (count) { case 1: count++; break; case 2: default: count--; }"},
-	"var_local":       {"stmt", "var vl = new java.util.ArrayList<String>(); for (var e : vl) { e.length(); }"},
-	"try_resources":   {"stmt", "try (java.io.StringReader rd = new java.io.StringReader(\"x\"); java.io.StringWriter wr = new java.io.StringWriter()) { rd.read(); } catch (java.io.IOException | RuntimeException ex) { throw new IllegalStateException(ex); } finally { count = 0; }"},
-	"labelled":        {"stmt", "outer: for (int i = 0; i < 2; i++) { for (int j = 0; ; j++) { if (j > 1) continue outer; if (i > 0) break outer; } }"},
-	"sync_block":      {"stmt", "synchronized (this) { count++; } do { count--; } while (count > 0); assert count >= 0 : \"neg\";"},
-	"local_class":     {"stmt", "class Local { int q; int twice() { return q * 2; } } new Local().twice();"},
-	"non_ascii":       {"stmt", "int größe = 1; String 名字 = \"注释 é\"; char c = 'é'; größe++;"},
-	"literals":        {"stmt", "long big = 1_000_000L; int hx = 0xFF_FF; int bn = 0b1010; double d = 1e-3; float fl = 1.5f; char nl = '\\n'; char uq = '\\u00e9';"},
-	"nested_generics": {"stmt", "java.util.Map<String, java.util.Map<String, java.util.List<int[]>>> deep = null; java.util.List<? extends Number>[] wild = null;"},
-	"inner_creation":  {"stmt", "Main outerRef = this; Object in = outerRef.new Inner2();"},
-	"explicit_targs":  {"stmt", "java.util.Collections.<String>emptyList(); this.<Integer>pick(1);"},
-	"chained_calls":   {"stmt", "new StringBuilder().append(\"a\").append(1).reverse().toString().trim().length();"},
-	"nested_lambda_calls": {"stmt", "java.util.List.of(1, 2).stream().map(x -> java.util.List.of(x).stream().filter(y -> y > 0).count()).forEach(z -> System.out.println(z));"},
-	"text_block":      {"stmt", "String tb = \"\"\"\n    hello\n    \"\"\";"},
-	"this_field_calls": {"stmt", "this.count = this.helper().count; this.helper().body();"},
-	"array_method":    {"member", "int[] arrm()[] { return null; } int[] plain(int[] a, int b[]) { return a; }"},
+	"lambda0":                  {"stmt", "Runnable r0 = () -> { }; r0.run();"},
+	"lambda1":                  {"stmt", "java.util.function.Function<String, String> f1 = s -> s.trim(); f1.apply(\"x\");"},
+	"lambdaN":                  {"stmt", "java.util.function.BiFunction<Integer, Integer, Integer> add = (a, b) -> a + b;"},
+	"lambda_typed":             {"stmt", "java.util.function.BinaryOperator<Integer> mul = (Integer a, Integer b) -> { return a * b; };"},
+	"method_ref":               {"stmt", "java.util.function.Function<Object, String> g = Object::toString; Runnable rr = this::body;"},
+	"ctor_ref":                 {"stmt", "java.util.function.Supplier<java.util.ArrayList<String>> mk = java.util.ArrayList::new; java.util.function.IntFunction<int[]> arr = int[]::new;"},
+	"array_creation":           {"stmt", "int[] a1 = new int[3]; int[][] a2 = new int[][]{{1}, {2, 3}}; a1[0] = a2[1][0];"},
+	"anonymous_class":          {"stmt", "Object anon = new Object() { int k; @Override public String toString() { return \"x\" + k; } };"},
+	"ternary_cast":             {"stmt", "Object oc = count > 1 ? (Object) \"a\" : Integer.valueOf(2); long lc = (long) count;"},
+	"instanceof_pattern":       {"stmt", "Object ip = \"s\"; if (ip instanceof String str && !str.isEmpty()) { str.length(); }"},
+	"switch_expr":              {"stmt", "int se = switch (count) { case 1, 2 -> 10; default -> { yield 20; } };"},
+	"switch_classic":           {"stmt", "switch (count) { case 1: count++; break; case 2: default: count--; }"},
+	"var_local":                {"stmt", "var vl = new java.util.ArrayList<String>(); for (var e : vl) { e.length(); }"},
+	"try_resources":            {"stmt", "try (java.io.StringReader rd = new java.io.StringReader(\"x\"); java.io.StringWriter wr = new java.io.StringWriter()) { rd.read(); } catch (java.io.IOException | RuntimeException ex) { throw new IllegalStateException(ex); } finally { count = 0; }"},
+	"labelled":                 {"stmt", "outer: for (int i = 0; i < 2; i++) { for (int j = 0; ; j++) { if (j > 1) continue outer; if (i > 0) break outer; } }"},
+	"sync_block":               {"stmt", "synchronized (this) { count++; } do { count--; } while (count > 0); assert count >= 0 : \"neg\";"},
+	"local_class":              {"stmt", "class Local { int q; int twice() { return q * 2; } } new Local().twice();"},
+	"non_ascii":                {"stmt", "int größe = 1; String 名字 = \"注释 é\"; char c = 'é'; größe++;"},
+	"literals":                 {"stmt", "long big = 1_000_000L; int hx = 0xFF_FF; int bn = 0b1010; double d = 1e-3; float fl = 1.5f; char nl = '\\n'; char uq = '\\u00e9';"},
+	"nested_generics":          {"stmt", "java.util.Map<String, java.util.Map<String, java.util.List<int[]>>> deep = null; java.util.List<? extends Number>[] wild = null;"},
+	"inner_creation":           {"stmt", "Main outerRef = this; Object in = outerRef.new Inner2();"},
+	"explicit_targs":           {"stmt", "java.util.Collections.<String>emptyList(); this.<Integer>pick(1);"},
+	"chained_calls":            {"stmt", "new StringBuilder().append(\"a\").append(1).reverse().toString().trim().length();"},
+	"nested_lambda_calls":      {"stmt", "java.util.List.of(1, 2).stream().map(x -> java.util.List.of(x).stream().filter(y -> y > 0).count()).forEach(z -> System.out.println(z));"},
+	"text_block":               {"stmt", "String tb = \"\"\"\n    hello\n    \"\"\";"},
+	"this_field_calls":         {"stmt", "this.count = this.helper().count; this.helper().body();"},
+	"array_method":             {"member", "int[] arrm()[] { return null; } int[] plain(int[] a, int b[]) { return a; }"},
 	"interface_generic_method": {"top", "interface Repo<T, ID> { <S extends T> S save(S s); java.util.Optional<T> findById(ID id); }"},
 }
 
@@ -189,6 +189,93 @@ type Case struct {
 	Project  string   `json:"project"` // single | sandwich
 	Fixture  string   `json:"fixture"` // relative path under <repo>/_fixtures ("" for feature cases)
 	Rewrite  string   `json:"rewrite"` // none | indent | comments | rename | crlf
+	// a sentence derived from the shipped grammar by spec/JavaDerive.tla: terminals in order; "@CLASS#k" = lexeme k of a token class
+	Ctx     string   `json:"ctx"`
+	Tokens  []string `json:"tokens"`
+	Comment *Comment `json:"comment,omitempty"`
+}
+
+type Comment struct {
+	Marker   string `json:"marker"`
+	Assignee string `json:"assignee"`
+	Sep      string `json:"sep"`
+	Msg      string `json:"msg"`
+	Style    string `json:"style"` // none | line | block | doc
+	At       int    `json:"at"`    // 0 before the unit, 1 after the first "{", 2 at the very end (no newline after it)
+}
+
+// lexeme tables of the token classes (the derivation machine chooses the index)
+var lexemes = map[string][]string{
+	"IDENTIFIER": {"a", "Foo", "getName", "RestController", "GetMapping", "x", "値", "Override", "String", "T", "isOk", "setV", "Test", "main",
+		"RequestMapping", "value"},
+	"DECIMAL_LITERAL":   {"0", "1", "42", "1_000", "7L", "0l"},
+	"HEX_LITERAL":       {"0x1F", "0XffL", "0x0_1"},
+	"OCT_LITERAL":       {"017", "0_7L"},
+	"BINARY_LITERAL":    {"0b101", "0B1_0L"},
+	"FLOAT_LITERAL":     {"1.0", "1e3", ".5f", "2d", "1.5e-3F"},
+	"HEX_FLOAT_LITERAL": {"0x1.8p1", "0x.8P-2f"},
+	"BOOL_LITERAL":      {"true", "false"},
+	"CHAR_LITERAL":      {"'a'", "'\\n'", "'\\u0041'", "'\\''", "'é'"},
+	"STRING_LITERAL":    {"\"\"", "\"x\"", "\"a\\\"b\"", "\"TODO: no\"", "\"/* c */\"", "\"// x\"", "\"日本\"", "\"{}\"", "\"/api/{id}\""},
+	"TEXT_BLOCK":        {"\"\"\"\n  hi\n  \"\"\"", "\"\"\"\n\"\"\""},
+}
+
+func lexeme(tok string) string {
+	// "@CLASS#k"
+	h := strings.LastIndex(tok, "#")
+	if !strings.HasPrefix(tok, "@") || h < 0 {
+		return tok
+	}
+	cls := tok[1:h]
+	pool, ok := lexemes[cls]
+	if !ok {
+		panic("harness: no lexemes for token class " + cls)
+	}
+	k := 0
+	fmt.Sscanf(tok[h+1:], "%d", &k)
+	return pool[k%len(pool)]
+}
+
+func renderComment(c *Comment) string {
+	if c == nil || c.Style == "none" || c.Style == "" {
+		return ""
+	}
+	text := c.Marker + c.Assignee + c.Sep + c.Msg
+	switch c.Style {
+	case "line":
+		return "// " + text
+	case "block":
+		return "/* " + text + " */"
+	default:
+		return "/** " + text + " */"
+	}
+}
+
+// renderTokens lays a derived sentence out as source text: one blank between tokens, a line break after ; { }
+func renderTokens(toks []string, c *Comment) string {
+	var b strings.Builder
+	cm := renderComment(c)
+	if cm != "" && c.At == 0 {
+		b.WriteString(cm + "\n")
+	}
+	placed := false
+	for _, t := range toks {
+		b.WriteString(lexeme(t))
+		switch t {
+		case ";", "{", "}":
+			if t == "{" && cm != "" && c.At == 1 && !placed {
+				b.WriteString(" " + cm)
+				placed = true
+			}
+			b.WriteString("\n")
+		default:
+			b.WriteString(" ")
+		}
+	}
+	if cm != "" && (c.At == 2 || (c.At == 1 && !placed)) {
+		b.WriteString(cm) // last thing in the file, no line break after it
+	}
+	return b.String()
 }
 
 type PassObs struct {
@@ -205,6 +292,9 @@ type Record struct {
 	Project  string    `json:"project"`
 	Fixture  string    `json:"fixture"`
 	Rewrite  string    `json:"rewrite"`
+	Ctx      string    `json:"ctx"`
+	NTokens  int       `json:"ntokens"`
+	Text     string    `json:"text"`  // derived sentences only: the unit as rendered (for replay and reading)
 	Valid    bool      `json:"valid"` // the shipped grammar parses the unit without syntax errors
 	Observed []PassObs `json:"observed"`
 }
@@ -224,8 +314,11 @@ func runPasses(dir string, sandwich bool) []PassObs {
 		o := PassObs{Pass: name, GoodKept: true}
 		var res interface{}
 		kept := true
-		p, msg := lib.Guard(func() { res, kept = f() })
+		p, msg, site := lib.GuardAt(func() { res, kept = f() })
 		o.Panic, o.Note = p, msg
+		if p {
+			o.Note = msg + " @ " + site
+		}
 		if !p {
 			_, err := json.Marshal(res)
 			o.Serialises = err == nil
@@ -357,6 +450,9 @@ func one(raw json.RawMessage) interface{} {
 			seed = seed*131 + int64(ch)
 		}
 		unit = rewrite(string(b), c.Rewrite, seed)
+	} else if len(c.Tokens) > 0 {
+		unit = renderTokens(c.Tokens, c.Comment)
+		rec.Ctx, rec.NTokens, rec.Text = c.Ctx, len(c.Tokens), unit
 	} else {
 		unit = renderUnit("Main", c.Features)
 	}
@@ -381,7 +477,10 @@ func abnormal(raw json.RawMessage, timeout bool, stderr string) interface{} {
 	if c.Features == nil {
 		c.Features = []string{}
 	}
-	rec := Record{Case: c.Case, Features: c.Features, Project: c.Project, Fixture: c.Fixture, Rewrite: c.Rewrite, Valid: true}
+	rec := Record{Case: c.Case, Features: c.Features, Project: c.Project, Fixture: c.Fixture, Rewrite: c.Rewrite, Valid: true, Ctx: c.Ctx, NTokens: len(c.Tokens)}
+	if len(c.Tokens) > 0 {
+		rec.Text = renderTokens(c.Tokens, c.Comment)
+	}
 	note := "process died"
 	if timeout {
 		note = "process timed out"
